@@ -891,6 +891,10 @@ func (h *H) doObs(toks []string) {
 			if cs, ok := h.compList(s); ok && len(cs) > 0 {
 				if ctor, ok := observerCtors[tupleKey(cs)]; ok {
 					to, forComps = ctor(evt), cs
+				} else if ctor, ok := observerCtors[tupleKey(cs[:len(cs)-1])]; ok && len(cs) > 1 {
+					// the last observed component through For(...) in addition to the type parameters
+					to, forComps = ctor(evt), cs[:len(cs)-1]
+					to.For(h.scratchComps(cs[len(cs)-1:]))
 				}
 			}
 		}
